@@ -23,7 +23,7 @@ spec/P2P.tla   one peer session of client/network: the wire grammar of every com
 import json, os, re, collections, random
 from vf import Infra
 
-DEFECTS = ["VersionAgentLen", "CmpctSameSid", "BlkTxnNoColLock", "CmpctPrefilledIdx", "InvCountWrap", "BlockTxCount", "CmpctTxSize", "GetBlockTxnIdx",
+DEFECTS = ["VersionAgentLen", "CmpctSameSid", "BlkTxnNoColLock", "CmpctPrefilledIdx", "GetHeadersRecoverReturn", "InvCountWrap", "BlockTxCount", "CmpctTxSize", "GetBlockTxnIdx",
            "BlockTxnMissing", "EncFlagNoKey", "TeardownLockOrder"]
 IDLE = dict(MAXPRE=1, MAXPOST=5, CMDS='"version","headers","idle","blocktxn","blocktxn2","block","cmpctblock"', KINDS='"valid"')
 ORPH = dict(MAXPRE=1, MAXPOST=4, CMDS='"version","txo1","txo2","cmpctblock4","sendcmpct"', KINDS='"valid"')
@@ -134,6 +134,7 @@ def signature(r, sess):
     step = (r.get("steps") or [{}] * at)[at - 1] if at and at <= len(r.get("steps") or []) else {}
     held = ",".join(step.get("held") or re.findall(r"locked[^:]*: ([\w., ]+)", what)[:1])
     cmd = sess["msgs"][at - 1]["cmd"] if at and at <= len(sess["msgs"]) else (sess["msgs"][-1]["cmd"] if sess["msgs"] else "teardown")
+    cmd = re.sub(r"^(getheaders|getblocks)[A-Z]+$|^([a-z]+)\d$", lambda m: m.group(1) or m.group(2), cmd)   # the wire command of a further instance
     if kind == "crash":
         if "out of memory" in what:
             return "C18:oom:%s" % top_frame(what)
